@@ -88,3 +88,15 @@ pub struct ProgramTypeIsPrivate;
 /// assert_eq!(e.error, abasic_core::InterpreterError::TypeMismatch);
 /// ```
 pub struct ErrorsOriginateInside;
+
+/// A host cannot touch the random number generator's state; the only seeding entry point is `randomize`.
+/// ```compile_fail,E0616
+/// let mut i = abasic_core::Interpreter::default();
+/// let _r = &mut i.rng;
+/// ```
+/// twin (compiled, never run):
+/// ```no_run
+/// let mut i = abasic_core::Interpreter::default();
+/// i.randomize(42);
+/// ```
+pub struct RngIsPrivate;
